@@ -56,6 +56,14 @@ FIXED = [
      "`forever { switch ($A) { case 1: a(); break; case 2: b0(); b1(); b2(); b3(); break; } }` (and a switch in front of a loop whose cases differ in length by the loop length) decompiled with `case 1: a();` without break, a() fell through into case 2 (21 of the 990 G-lengths programs; first seen by a sub-agent's random programs, the generators had no branch bodies longer than 2 ops next to a loop)"),
     ("C04", "fix: form feeds, vertical tabs, NEL, U+2028 and other separators in strings were read as new lines",
      "string 'a\\u2028b\\nc' (likewise \\x0b \\x0c \\x1c \\x85 \\u2029 next to a newline) printed as a multi-line literal came back as 'a\\nb\\nc' (str.splitlines() in the reader); 'a\\x0c' was printed as a single-line literal, which the grammar rejects (8.9k of 10.8k new failures when the other white-space characters were added to C04's alphabet)"),
+    ("C08", "fix: position marks of a macro were recorded for every other macro of the same file",
+     "`macro a() { x(Position<'A', 1, 2>); } macro b() { y(); } def 0 { ~b(); }`: the mark 'A' was recorded under macro b although no op carries it (213 of the G-macro cases once never-called macros with marks were generated; pointed out by a sub-agent as an observation on the unchanged tree)"),
+    ("C08", "fix: the Return appended behind a macro call repeated the call position and returned in front of itself",
+     "`macro w() { while not (debug) { x(); } } def 0 { ~w(); }`: the appended Return@4 got the macro entry of op 1 including its call position and return address 4 (with a second routine in the file: Return@5, return address 4); 158 G-macro cases once routines ending in an expansion whose body ends in a negated while were generated. The copy was introduced by this session's first repair of strip_last_label"),
+    ("C13", "fix: an operation with a context fell back to SsbScript when its opcode can also start a switch",
+     "`def 0 { message_Menu<actor 1>(1, 2); hold; }` (also ProcessSpecial, message_SwitchMenu, main_EnterAdventure; inline context or with-block) decompiled to the SsbScript fallback (792 of 10.4k flat programs once such opcode names were used in plain statements; pointed out by a sub-agent as an observation on the unchanged tree)"),
+    ("C16", "fix: ValueError for position mark coordinates written without a digit in front of the point",
+     "`def 0 { a(Position<'m', -.5, 1>); }` raised ValueError (invalid literal for int(): '-') while the spellings `-0.5` and `-00.5` of the same decimal compile (one of the 8 hand-written spelling groups; pointed out by a sub-agent as an observation on the unchanged tree)"),
     ("C02", "fix: dungeon mode values other than 0..3 were printed as the 'closed' constant",
      "`switch (dungeon_mode(D)) { case DMODE_OPEN: .. }` (or any constant / other number as case value or flag_SetDungeonMode value) decompiled to `case DMODE_CLOSE:` (476 of 55k inputs under seed rotation 2)"),
     ("C09", "fix: inserted break_loop/continue statements overwrote the source map entry of the op before them",
